@@ -929,3 +929,213 @@ def run(ctx):
     _run_main_fc(ctx)
     _x4_foreign_cache(ctx)
     ctx.flush()
+
+
+# ---- round 9 (hx_r9b): arrays obtained from the object's OWN getters handed back as arguments to its own methods ---------------------------------
+# (seed C06-r9-2: a guard in gen_smooth_fa_spectrum that "repairs" non-positive targets in place -- the targets were the object's cached
+# frequency array). Twin construction: object A is fed the very arrays its getters return, object B (same record) is fed COPIES of what ITS getters
+# return. Afterwards every public reading of A equals that of B bit for bit (NaN == NaN), arrays read from A before the call still hold what they
+# held, and the Fourier grid of A is k/(N dt) with entry 0 == 0.
+def _x9_ops(is_acc):
+    from eqsig.fns import frequency as fq
+    own = lambda name, sl=None: (lambda o: getattr(o, name) if sl is None else getattr(o, name)[sl])   # the very object the getter returns / a view of it
+    ops = [('gen_smooth_fa_spectrum(smooth_fa_freqs=self.%s)' % g, own(g), lambda o, x: o.gen_smooth_fa_spectrum(smooth_fa_freqs=x, band=40))
+           for g in ('fa_freqs', 'fa_frequencies', 'smooth_fa_frequencies', 'smooth_fa_freqs')]
+    ops += [('gen_smooth_fa_spectrum(smooth_fa_freqs=self.fa_freqs[1:])', own('fa_freqs', slice(1, None)), lambda o, x: o.gen_smooth_fa_spectrum(smooth_fa_freqs=x, band=20)),
+            ('gen_smooth_fa_spectrum(smooth_fa_freqs=self.time)', own('time'), lambda o, x: o.gen_smooth_fa_spectrum(smooth_fa_freqs=x)),
+            ('smooth_fa_frequencies = self.fa_frequencies', own('fa_frequencies'), lambda o, x: setattr(o, 'smooth_fa_frequencies', x)),
+            ('smooth_fa_freqs = self.fa_freqs[1:]', own('fa_freqs', slice(1, None)), lambda o, x: setattr(o, 'smooth_fa_freqs', x)),
+            ('smooth_fa_freqs = self.smooth_fa_frequencies', own('smooth_fa_frequencies'), lambda o, x: setattr(o, 'smooth_fa_freqs', x)),
+            ('reset_values(self.values)', own('values'), lambda o, x: o.reset_values(x)),
+            ('reset_values(self.time)', own('time'), lambda o, x: o.reset_values(x)),
+            ('add_series(self.values)', own('values'), lambda o, x: o.add_series(x)),
+            ('add_series(self.time)', own('time'), lambda o, x: o.add_series(x)),
+            ('calc_smooth_fa_spectrum(self.fa_freqs, self.fa_spectrum, self.fa_freqs)', own('fa_freqs'), lambda o, x: fq.calc_smooth_fa_spectrum(x, o.fa_spectrum, x)),
+            ('calc_smoothing_matrix_konno_1998(self.fa_freqs, self.fa_freqs)', own('fa_freqs'), lambda o, x: fq.calc_smoothing_matrix_konno_1998(x, x)),
+            ('gen_fa_spectrum(n=len(self.fa_freqs) * 2 + 1)', own('fa_freqs'), lambda o, x: o.gen_fa_spectrum(n=2 * len(x) + 1))]
+    if is_acc:
+        ops += [('gen_response_spectrum(response_times=self.response_times)', own('response_times'), lambda o, x: o.gen_response_spectrum(response_times=x)),
+                ('response_times = self.response_times', own('response_times'), lambda o, x: setattr(o, 'response_times', x)),
+                ('gen_response_spectrum(response_times=self.time[1:6])', own('time', slice(1, 6)), lambda o, x: o.gen_response_spectrum(response_times=x)),
+                ('gen_response_spectrum(response_times=self.fa_freqs[1:5])', own('fa_freqs', slice(1, 5)), lambda o, x: o.gen_response_spectrum(response_times=x)),
+                ('gen_smooth_fa_spectrum(smooth_fa_freqs=self.response_times)', own('response_times'), lambda o, x: o.gen_smooth_fa_spectrum(smooth_fa_freqs=x))]
+    return ops
+
+
+def _x9_readings(o, is_acc):
+    from eqsig import im
+    names = ['values', 'npts', 'dt', 'time', 'fa_frequencies', 'fa_freqs', 'fa_spectrum', 'smooth_fa_frequencies', 'smooth_fa_freqs', 'smooth_fa_spectrum']
+    if is_acc:
+        names += ['response_times', 's_a', 's_d']
+    out = {nm: call_impl(lambda nm=nm: np.array(getattr(o, nm))) for nm in names}
+    out['im.max_fa_period'] = call_impl(im.max_fa_period, o)
+    return out
+
+
+def _x9_same(r1, r2):
+    if r1[0] != r2[0]:
+        return False
+    if r1[0] != 'ok':
+        return r1[1] == r2[1]
+    a, b = np.asarray(r1[1]), np.asarray(r2[1])
+    return a.shape == b.shape and a.dtype == b.dtype and bool(np.array_equal(a, b, equal_nan=a.dtype.kind in 'fc'))
+
+
+def _x9_own_arrays(ctx):
+    import warnings
+    import eqsig
+    rng = ctx.rng
+    for it in range(30 if ctx.tier == 'quick' else 300):
+        is_acc = it % 3 != 0
+        cls = eqsig.AccSignal if is_acc else eqsig.Signal
+        n = rng.choice([6, 11, 16, 23, 40, 64])
+        dt = rng.choice([0.01, 0.02, 0.125, 0.005])
+        v = gen.any_record(rng, n, dt)[1] + rng.choice([0.0, 2.5, 0.75])         # a positive mean makes bin 0 the dominant one
+        ops = _x9_ops(is_acc)
+        word = [rng.randrange(len(ops)) for _ in range(rng.choice([1, 1, 2, 3]))]
+        if it < len(ops):
+            word[0] = it % len(ops)                                               # every operation leads a word at least once
+        kw = {'response_times': np.array([0.1, 0.2, 0.5, 1.0, 2.0])} if is_acc else {}
+        A, B = cls(v.copy(), dt, **kw), cls(v.copy(), dt, **{k: x.copy() for k, x in kw.items()})
+        warm = rng.choice(['cold', 'fa', 'fa+smooth'])
+        with warnings.catch_warnings(), np.errstate(all='ignore'):
+            warnings.simplefilter('ignore')
+            for o in (A, B):
+                if warm != 'cold':
+                    _ = o.fa_spectrum
+                if warm == 'fa+smooth':
+                    _ = o.smooth_fa_spectrum
+            held_ok, status = True, []
+            for k in word:
+                nm, getter, act = ops[k]
+                xa = call_impl(getter, A)
+                xb = call_impl(getter, B)
+                if xa[0] != 'ok' or xb[0] != 'ok':
+                    status.append((nm, 'getter: ' + xa[0]))
+                    continue
+                snap = np.array(xa[1])
+                ra = call_impl(act, A, xa[1])
+                rb = call_impl(act, B, np.array(xb[1]).copy())
+                status.append((nm, ra[0] if ra[0] == 'ok' else ra[1], rb[0] if rb[0] == 'ok' else rb[1]))
+                held_ok = held_ok and _x9_same(('ok', snap), ('ok', np.array(xa[1])))
+            ra, rb = _x9_readings(A, is_acc), _x9_readings(B, is_acc)
+            N = 2 * len(np.asarray(rb['fa_freqs'][1])) if rb['fa_freqs'][0] == 'ok' else None
+        names = [ops[k][0] for k in word]
+        inputs = {'values': v, 'dt': dt, 'class': cls.__name__, 'state_before': warm, 'operations (self = the object itself)': names}
+        ctx.hist('own arrays/' + names[0].split('(')[0].split(' =')[0])
+        ctx.count_case(('x9', v.tobytes(), dt, tuple(names), warm), True)
+        ctx.oracle('C06 an array read from the object before it was handed back to one of its methods still holds what it held', held_ok, inputs, detail=status)
+        for nm in ra:
+            ctx.oracle('C06 handing an object the arrays its own getters return == handing it copies of them: every reading afterwards agrees bit for bit (%s)' % nm,
+                       _x9_same(ra[nm], rb[nm]), inputs, detail=None if _x9_same(ra[nm], rb[nm]) else {'own arrays': ra[nm], 'copies': rb[nm], 'status': status})
+        if ra['fa_freqs'][0] == 'ok' and 'gen_fa_spectrum(n=len(self.fa_freqs) * 2 + 1)' not in names:
+            f = np.asarray(ra['fa_freqs'][1], dtype=float)
+            ctx.oracle('C06.b frequencies are k/(N dt), entry 0 is 0 (after the object was handed its own arrays)',
+                       len(f) > 0 and f[0] == 0 and bool(np.allclose(f, np.arange(len(f)) / (2 * len(f) * dt), rtol=1e-12, atol=0)), inputs,
+                       detail={'got': f[:4], 'status': status})
+    ctx.flush()
+
+
+_run_main_x9 = run
+
+
+def run(ctx):
+    from core import no_probe
+    _run_main_x9(ctx)
+    with no_probe():          # twin construction: a memo probe would precede the calls on A and on B with DIFFERENT extra calls (the pinned
+        _x9_own_arrays(ctx)   # gen_fa_spectrum keeps a smoothed spectrum cached by such an extra call: not a matter of this family)
+    ctx.flush()
+
+
+# ---- round 9 (hx_r9b): mutators that take ANOTHER signal object (add_signal), both objects in every cache state ---------------------------------
+# (seed C06-r9-1: add_signal sums the two cached spectra when both are warm and have the default number of points -- the operand's spectrum had been
+# generated with n = N + 1: same number of one-sided points, another transform length.) Receiver and operand each: cold / default spectrum read /
+# gen_fa_spectrum(n = N+1 | N-1 | 2N | 2N+1 | npts | npts+1) / p2_plus = 1 / warm then changed by add_constant; Signal and AccSignal mixed; the operand is
+# the receiver itself in a share of the cases. Afterwards a plain read of the receiver's spectrum == dt * DFT of the sum padded to the default N
+# (defining sum, 1e-9) and == the reading of a fresh object holding the sum (1e-9; grid exactly); the operand still reports its own record and grid.
+def _x9_cache_state(rng, o, N0):
+    how = rng.choice(['cold', 'read', 'n=N+1', 'n=N+1', 'n=N-1', 'n=2N', 'n=2N+1', 'n=npts', 'n=npts+1', 'p2_plus=1', 'read+add_constant', 'read+smooth'])
+    n = {'n=N+1': N0 + 1, 'n=N-1': max(N0 - 1, 2), 'n=2N': 2 * N0, 'n=2N+1': 2 * N0 + 1, 'n=npts': o.npts, 'n=npts+1': o.npts + 1}.get(how)
+    if n is not None:
+        o.gen_fa_spectrum(n=n)
+    elif how == 'p2_plus=1':
+        o.gen_fa_spectrum(p2_plus=1)
+    elif how != 'cold':
+        _ = o.fa_spectrum, o.fa_frequencies
+        if how == 'read+add_constant':
+            o.add_constant(0.5)
+        if how == 'read+smooth':
+            _ = o.smooth_fa_spectrum
+    if how != 'cold' and rng.random() < 0.5:
+        _ = o.fa_spectrum
+    return how
+
+
+def _x9_add_signal(ctx):
+    import warnings
+    import eqsig
+    rng = ctx.rng
+    for it in range(40 if ctx.tier == 'quick' else 400):
+        n = rng.choice([6, 8, 11, 16, 23, 40, 63, 64, 100])
+        dt = rng.choice([0.01, 0.02, 0.5, 0.005])
+        a = gen.any_record(rng, n, dt)[1] + rng.choice([0.0, 0.75])
+        b = gen.any_record(rng, n, dt)[1] if it % 4 else gen.dyadic_record(rng, n)
+        N0 = 2 ** int(math.ceil(math.log2(n)))
+        c1, c2 = (rng.choice([eqsig.Signal, eqsig.AccSignal]) for _ in range(2))
+        with warnings.catch_warnings(), np.errstate(all='ignore'):
+            warnings.simplefilter('ignore')
+            s, o = c1(a.copy(), dt), c2(b.copy(), dt)
+            selfadd = it % 10 == 9
+            hs = _x9_cache_state(rng, s, N0)
+            ho = hs if selfadd else _x9_cache_state(rng, o, N0)
+            if selfadd:
+                o = s
+            vo = np.array(o.values, dtype=float)
+            total = np.array(s.values, dtype=float) + vo
+            kw_o = None
+            if o._cached_fa if hasattr(o, '_cached_fa') else False:
+                kw_o = (np.array(o.fa_frequencies), np.array(o.fa_spectrum))
+            r = call_impl(s.add_signal, o)
+            got_v = np.array(s.values, dtype=float)
+            got = call_impl(lambda: (np.array(s.fa_spectrum), np.array(s.fa_frequencies)))
+            fresh = c1(total.copy(), dt)
+            want = (np.array(fresh.fa_spectrum), np.array(fresh.fa_frequencies))
+        inputs = {'values': a, 'other_values': b, 'dt': dt, 'class': c1.__name__, 'other_class': c2.__name__, 'receiver_cache': hs,
+                  'operand_cache': ho, 'operand_is_receiver': selfadd}
+        ctx.hist('add_signal/receiver=' + hs.split('=')[0])
+        ctx.hist('add_signal/operand=' + ho.split('=')[0])
+        ctx.count_case(('x9-add', a.tobytes(), b.tobytes(), dt, hs, ho, selfadd), True)
+        ctx.oracle('C06 add_signal returns and the record becomes the sum', r[0] == 'ok' and np.array_equal(got_v, total), inputs, detail=r)
+        if r[0] != 'ok' or got[0] != 'ok':
+            ctx.oracle('C06.a the spectrum can be read after add_signal', got[0] == 'ok', inputs, detail=got)
+            continue
+        S, F = got[1]
+        ks = list(range(N0 // 2))
+        X = dt * ind_dft_rows(total, N0, ks)
+        scale = dt * float(np.sum(np.abs(total))) or 1.0
+        okc, g = close(S, X, 1e-9, scale)
+        ctx.oracle('C06.a after add_signal a plain read of the spectrum == dt * DFT of the summed record zero-padded to the default N (whatever spectra the two '
+                   'objects held before)', okc, inputs, detail={'bins': len(S), 'expected bins': N0 // 2, 'rel gap': g})
+        ctx.oracle('C06.b after add_signal the frequencies are k/(N dt) of the default N', F.shape == (N0 // 2,) and bool(np.allclose(F, np.arange(N0 // 2) / (N0 * dt), rtol=1e-12, atol=0)),
+                   inputs, detail={'got': F[:4]})
+        ctx.oracle('C06 after add_signal the spectrum and grid == those of a fresh object holding the sum (grid exactly, spectrum within 1e-9 of sum|x| dt: '
+                   'summing two spectra instead of transforming the sum would be legitimate where it is exact up to rounding)',
+                   S.shape == want[0].shape and close(S, want[0], 1e-9, scale)[0] and np.array_equal(F, want[1]), inputs,
+                   detail={'max gap': float(np.max(np.abs(S - want[0]))) if S.shape == want[0].shape else None})
+        if not selfadd:
+            ok_o = np.array_equal(np.array(o.values, dtype=float), vo)
+            if kw_o is not None:
+                ok_o = ok_o and np.array_equal(np.array(o.fa_frequencies), kw_o[0]) and np.array_equal(np.array(o.fa_spectrum), kw_o[1])
+            ctx.oracle('C06 add_signal leaves the operand (record, spectrum, grid) as it was', ok_o, inputs)
+    ctx.flush()
+
+
+_run_main_x9b = run
+
+
+def run(ctx):
+    from core import no_probe
+    _run_main_x9b(ctx)
+    with no_probe():          # the cache states of receiver and operand ARE the generated input here
+        _x9_add_signal(ctx)
+    ctx.flush()
